@@ -2,6 +2,7 @@ import FurikoModel.Driver.HeapD
 import FurikoModel.Driver.CronD
 import FurikoModel.Driver.QueueD
 import FurikoModel.Driver.CronRecD
+import FurikoModel.Driver.ConfigD
 open Furiko Furiko.Driver
 
 structure DState where
@@ -9,6 +10,7 @@ structure DState where
   cron : CronDS := {}
   queue : QueueDS := {}
   cronrec : CronRecDS := {}
+  config : ConfigDS := {}
 
 def step (s : DState) (line : String) : DState × String :=
   let t := toks line
@@ -27,6 +29,9 @@ def step (s : DState) (line : String) : DState × String :=
     else if op.startsWith "cronrec." then
       let (c, o) := cronRecStep s.cronrec t
       ({ s with cronrec := c }, o)
+    else if op.startsWith "cfg." then
+      let (c, o) := configStep s.config t
+      ({ s with config := c }, o)
     else (s, "bad-op")
 
 partial def loop (hin : IO.FS.Stream) (hout : IO.FS.Stream) (s : DState) : IO Unit := do
